@@ -1,6 +1,7 @@
 package verifsim
 
 import (
+	"os"
 	"database/sql/driver"
 	"fmt"
 	"net"
@@ -144,37 +145,44 @@ func (s *Sim) noteFault(key, f string) {
 	s.trace("FAULT %s %s", key, f)
 }
 
+// immediateDial: a dial to a reachable, running server is answered at once (zero simulated
+// latency, no event, no fault decision): which goroutine of a daemon obtains the pool's idle
+// connection and which one has to dial is decided by the Go scheduler, so it must not be visible
+// in timing or in call identities. Statements always cost time; failing dials cost time too.
+func (s *Sim) immediateDial(c *call) bool {
+	if c.kind != callSQLDial || !s.srcAlive(c.src) {
+		return false
+	}
+	sv := s.mysql.servers[c.dst]
+	if sv == nil || !sv.Up || s.net.blockedMode(srcHostOf(c.src), c.dst) != "" {
+		return false
+	}
+	s.mon.touch(c.src, sv)
+	sv.conns[c.connID] = true
+	s.finishSQL(c, sqlResult{rows: [][]any{{sv.Epoch}}}, true)
+	return true
+}
+
 func (s *Sim) scheduleCall(c *call) {
 	if !s.srcAlive(c.src) {
 		return // dead process: its calls go nowhere and are never answered
-	}
-	s.drainHooks()
-	if it := s.mon.iters[c.src]; it != nil && it.open {
-		c.it = it
 	}
 	lat := s.baseLatency(c.key)
 	if c.kind == callZKDial {
 		s.after(lat, "zkdial", func() { s.deliverZKDial(c) })
 		return
 	}
-	flt := s.decide(c)
-	if flt == "" && c.kind == callSQLDial {
-		// A dial to a reachable, running server is answered at once (zero simulated latency,
-		// no event): which goroutine of a daemon obtains the pool's idle connection and which
-		// one has to dial is decided by the Go scheduler, so it must not be visible in timing.
-		// Statements always cost time; failing dials below cost time too.
-		if sv := s.mysql.servers[c.dst]; sv != nil && sv.Up && s.net.blockedMode(srcHostOf(c.src), c.dst) == "" {
-			s.mon.touch(c.src, sv)
-			sv.conns[c.connID] = true
-			s.finishSQL(c, sqlResult{rows: [][]any{{sv.Epoch}}}, true)
-			return
-		}
+	flt := ""
+	if c.kind != callSQLDial {
+		flt = s.decide(c)
 	}
 	if flt != "" {
 		s.noteFault(c.key, flt)
 	}
 	if flt == "hang" {
 		s.trace("SQL-HANG %s %s", c.key, c.query)
+		// the statement was attempted: oracles see it as sent, never applied, never answered
+		s.mon.onSQL(&SQLEvent{Seq: s.evSeq, T: s.now(), Src: c.src, Dst: c.dst, Kind: queryKind(c.query), Query: c.query, Args: c.args, Mutating: isMutating(c.query), Fault: "hang", Err: "hang", It: c.it})
 		return
 	}
 	if strings.HasPrefix(flt, "slow:") {
@@ -383,7 +391,9 @@ func (s *Sim) deliverSQL(c *call, flt string) {
 		ev.Err = res.err.Error()
 	}
 	s.mon.onSQL(ev)
-	if ev.Mutating || s.verbose {
+	if s.verbose && os.Getenv("VERIF_DEBUG_STK") != "" {
+		s.trace("SQL %s -> %s [%s] %v err=%s eff=%v key=%s stk=%x conn=%d", c.src, c.dst, c.query, c.args, ev.Err, ev.Effective, c.key, c.stk, c.connID)
+	} else if ev.Mutating || s.verbose {
 		s.trace("SQL %s -> %s [%s] %v err=%s eff=%v", c.src, c.dst, c.query, c.args, ev.Err, ev.Effective)
 	} else {
 		s.trace("SQL %s -> %s %s err=%s", c.src, c.dst, ev.Kind, ev.Err)
@@ -486,16 +496,56 @@ func (s *Sim) zkFault(c *memConn, op int32, req []byte) string {
 	return ""
 }
 
+// zkLatency: keyed by connection, frame content (without the xid) and the sending instant, so
+// that identical requests issued by two goroutines at the same instant travel together and
+// the scheduler's choice of "who was first" stays invisible.
 func (s *Sim) zkLatency(c *memConn, frame []byte, up bool) time.Duration {
 	c.upCount++
-	lat := s.baseLatency(fmt.Sprintf("zkup|%d|%d", c.id, c.upCount))
-	if s.ratesActive() && s.faultEligible(c.owner) && s.spec.Rates.ZKSlow > 0 {
-		k := fmt.Sprintf("zkslow|%d|%d", c.id, c.upCount)
-		if s.frac(k) < s.spec.Rates.ZKSlow {
+	body := frame
+	if len(body) >= 4 {
+		body = body[4:]
+	}
+	dir := "zkdown"
+	if up {
+		dir = "zkup"
+	}
+	k := fmt.Sprintf("%s|%d|%s|%d", dir, c.id, zkContentKey(body), int64(s.now()))
+	lat := s.baseLatency(k)
+	if up && s.ratesActive() && s.faultEligible(c.owner) && s.spec.Rates.ZKSlow > 0 {
+		if s.frac("zkslow", k) < s.spec.Rates.ZKSlow {
 			d := []int{50, 300, 1500}[s.h("zkslowd", k)%3]
 			s.stats.Faults["zk:slow"]++
 			lat += time.Duration(d) * time.Millisecond
 		}
 	}
 	return lat
+}
+
+// zkContentKey: opcode, path and payload of a request (body without xid), with the OS pid of
+// this run process normalised away (it appears in the lock owner record and, through its digit
+// count, in every length prefix around it).
+func zkContentKey(body []byte) string {
+	r := &jr{b: body}
+	op := r.i32()
+	switch op {
+	case 1, 5: // create, setData: path + data
+		path := r.str()
+		data := string(r.buf())
+		if strings.Contains(data, `"pid":`) {
+			data = pidRe.ReplaceAllString(data, `"pid":0`)
+		}
+		rest := ""
+		if !r.bad && r.o <= len(body) {
+			rest = fmt.Sprintf("%x", hashStr(string(body[r.o:])))
+		}
+		return fmt.Sprintf("op%d:%s:%x:%s", op, path, hashStr(data), rest)
+	case 2, 3, 4, 8, 12:
+		path := r.str()
+		rest := ""
+		if !r.bad && r.o <= len(body) {
+			rest = fmt.Sprintf("%x", hashStr(string(body[r.o:])))
+		}
+		return fmt.Sprintf("op%d:%s:%s", op, path, rest)
+	}
+	return fmt.Sprintf("op%d:%x", op, hashStr(string(body)))
 }
